@@ -99,7 +99,11 @@ Definition get_bullet (tbl : numtable) (fmt : option str * option str) (number :
                 | Some f => f
                 | None => NFBullet              (* + warning *)
                 end in
-      b <- apply_numfn fn n ;;
+      (* try: renderer(number) except ValueError: decimal(number) *)
+      b <- match apply_numfn fn n with
+           | Err ValueError => decimal n
+           | r => r
+           end ;;
       let b' := if str_eqb b bullet_str then b else b ++ [41] in
       lvl <- of_opt ValueError (int_of_str ilvl) ;;
       Ok (repeat_str s_tab (Z.to_nat lvl) ++ b' ++ s_tab)
